@@ -69,16 +69,23 @@ def _flatten_classes(cls):
         for c in typing.get_args(cls):
             out.extend(_flatten_classes(c))
         return out
+    if cls is sym_float:  # the shadowed names used as classes: isinstance(x, (int, float))
+        return [float]
+    if cls is sym_int:
+        return [int]
+    if cls is sym_range:
+        return [range]
     return [cls]
 
 
 def sym_isinstance(obj, cls):
     pret = getattr(type(obj), "_pretend", None)
+    flat = tuple(_flatten_classes(cls))
     if pret is None or isinstance(obj, type):
-        return builtins.isinstance(obj, cls)
-    if builtins.isinstance(obj, cls):
+        return builtins.isinstance(obj, flat)
+    if builtins.isinstance(obj, flat):
         return True
-    for c in _flatten_classes(cls):
+    for c in flat:
         for p in pret:
             try:
                 if issubclass(p, c):
